@@ -365,12 +365,12 @@ HeapStepOK(s, i) ==
     [] i = 9 -> s.a = "add" /\ s.e = 18 /\ s.t = 21
     [] OTHER -> s.a = "loop" /\ s.f = 0 /\ s.pol = "exact"
 (* directed family "deferpat": two events put at priority 1 or 2, one of them given a callback script that schedules
-   deferred callbacks (priority NPrio \div 2), both activated, one loop call: a deferred callback scheduled from a
-   running priority-2 callback must run before the other priority-2 callback *)
+   deferred callbacks or an immediate once-event (both of priority NPrio \div 2), both activated, one loop call: what a
+   running priority-2 callback schedules at priority 1 must run before the other priority-2 callback *)
 DeferStepOK(s, i) ==
   CASE i = 1 -> s.a = "prio" /\ s.e = 1 /\ s.p \in {1, 2}
     [] i = 2 -> s.a = "prio" /\ s.e = 3 /\ s.p \in {1, 2}
-    [] i = 3 -> s.a = "script" /\ s.s.a = "defer"
+    [] i = 3 -> s.a = "script" /\ s.s.a \in {"defer", "once"}
     [] i \in {4, 5} -> s.a = "act" /\ s.r = 2
     [] OTHER -> s.a = "loop"
 PatGuard(op) == /\ (("heappat" \in Acts) => HeapStepOK(op, Len(hist) + 1))
@@ -409,6 +409,7 @@ ScriptSet ==
   \cup (IF "adv" \in ScriptOps THEN {[a |-> "adv", t |-> t] : t \in DurSet \ {0}} ELSE {})
   \cup (IF "upd" \in ScriptOps THEN {[a |-> "upd"]} ELSE {})
   \cup (IF "exit" \in ScriptOps THEN {[a |-> "exit", t |-> 0]} ELSE {})
+  \cup (IF "once" \in ScriptOps THEN {[a |-> "once", t |-> 0]} ELSE {})
   \cup (IF "act" \in ScriptOps THEN {[a |-> "act", e |-> e, r |-> 2, n |-> 1] : e \in UserEv} ELSE {})
   \cup (IF "later" \in ScriptOps THEN {[a |-> "later", e |-> e, r |-> 2] : e \in UserEv} ELSE {})
   \cup (IF "del" \in ScriptOps THEN {[a |-> "del", e |-> e] : e \in UserEv} ELSE {})
